@@ -1,7 +1,8 @@
 // Harness for C09 (HTTP response framing).
-//  part M: correspondence of nbhttp.Response with the Coq model: boundaries and bytes of every conn.Write, result of every Write
-//  part O: property oracle on the implementation alone: net/http decodes the wire to the handler's status, headers,
-//          trailers and body; every successful Write reports len(data); nothing follows the response.
+//
+//	part M: correspondence of nbhttp.Response with the Coq model: boundaries and bytes of every conn.Write, result of every Write
+//	part O: property oracle on the implementation alone: net/http decodes the wire to the handler's status, headers,
+//	        trailers and body; every successful Write reports len(data); nothing follows the response.
 package main
 
 import (
@@ -41,6 +42,8 @@ type op struct {
 	N    int    `json:"n,omitempty"`
 	K    string `json:"k,omitempty"`
 	V    string `json:"v,omitempty"`
+	Via  string `json:"via,omitempty"` // "" = Write; else the pieces of one io.Copy/io.CopyN through Response.ReadFrom
+	Grp  int    `json:"grp,omitempty"`
 	data []byte
 }
 
@@ -83,7 +86,11 @@ func (p *prog) desc() []string {
 	for _, o := range p.Ops {
 		switch o.Kind {
 		case "w":
-			d = append(d, fmt.Sprintf("w%d", len(o.data)))
+			if o.Via != "" {
+				d = append(d, fmt.Sprintf("%s#%d:%d", o.Via, o.Grp, len(o.data)))
+			} else {
+				d = append(d, fmt.Sprintf("w%d", len(o.data)))
+			}
 		case "f":
 			d = append(d, "flush")
 		case "cl", "s":
@@ -165,8 +172,44 @@ func gen(r *rand.Rand, it int) *prog {
 	if trailers && r.Intn(2) == 0 {
 		p.Ops = append(p.Ops, op{Kind: "tv", K: "X-Sum", V: "late"})
 	}
+	// Response.ReadFrom: some programs hand their body bytes over with io.Copy / io.CopyN instead of Write. io.Copy reads the
+	// source in pieces of at most 32 KiB and ReadFrom passes them to Write, so for the model such a call IS the sequence of
+	// Writes of those pieces (ops with the same Grp). Only programs in which no Write is to be refused (io.Copy stops at the
+	// first error, a handler loop need not).
+	total, declared := 0, -1
+	for _, o := range p.Ops {
+		if o.Kind == "w" {
+			total += len(o.data)
+		}
+		if o.Kind == "cl" {
+			declared = o.N
+		}
+	}
+	if (declared < 0 || declared >= total) && r.Intn(3) == 0 {
+		via := []string{"copyn", "copyn-longer-source", "copy-reader"}[r.Intn(3)]
+		var ops []op
+		grp := 0
+		for _, o := range p.Ops {
+			if o.Kind != "w" || len(o.data) == 0 || r.Intn(4) == 0 {
+				ops = append(ops, o)
+				continue
+			}
+			grp++
+			for d := o.data; len(d) > 0; {
+				k := len(d)
+				if k > 32768 {
+					k = 32768
+				}
+				ops = append(ops, op{Kind: "w", data: d[:k], Via: via, Grp: grp})
+				d = d[k:]
+			}
+		}
+		p.Ops = ops
+	}
 	return p
 }
+
+type readerOnly struct{ io.Reader } // hides WriterTo, so that io.Copy goes through the destination's ReadFrom
 
 func statusText(code int) string {
 	txt := http.StatusText(code)
@@ -181,7 +224,7 @@ func runImpl(p *prog) ([][]byte, []string) {
 	var wrets []string
 	fc := &wconn{}
 	engine := nbhttp.NewEngine(nbhttp.Config{Handler: http.HandlerFunc(func(rw http.ResponseWriter, rq *http.Request) {
-		for _, o := range p.Ops {
+		for oi, o := range p.Ops {
 			switch o.Kind {
 			case "cl":
 				rw.Header().Set("Content-Length", fmt.Sprint(o.N))
@@ -194,6 +237,38 @@ func runImpl(p *prog) ([][]byte, []string) {
 			case "s":
 				rw.WriteHeader(o.N)
 			case "w":
+				if o.Via != "" {
+					if oi > 0 && p.Ops[oi-1].Kind == "w" && p.Ops[oi-1].Grp == o.Grp && p.Ops[oi-1].Via != "" {
+						continue // a later piece of a copy that has been issued with the first piece
+					}
+					var data []byte
+					var pieces []int
+					for _, q := range p.Ops[oi:] {
+						if q.Kind != "w" || q.Grp != o.Grp || q.Via == "" {
+							break
+						}
+						data = append(data, q.data...)
+						pieces = append(pieces, len(q.data))
+					}
+					var n int64
+					var err error
+					switch o.Via {
+					case "copyn":
+						n, err = io.CopyN(rw, bytes.NewReader(data), int64(len(data)))
+					case "copyn-longer-source": // the source goes on behind the requested length (a Range of a larger content)
+						n, err = io.CopyN(rw, bytes.NewReader(append(append([]byte{}, data...), "TRAILING-BYTES-OF-THE-SOURCE-THAT-WERE-NOT-ASKED-FOR"...)), int64(len(data)))
+					default:
+						n, err = io.Copy(rw, readerOnly{bytes.NewReader(data)})
+					}
+					for _, k := range pieces {
+						if err == nil && n == int64(len(data)) {
+							wrets = append(wrets, fmt.Sprint(k))
+						} else {
+							wrets = append(wrets, fmt.Sprintf("COPY(%d of %d, %v)", n, len(data), err))
+						}
+					}
+					continue
+				}
 				n, err := rw.Write(o.data)
 				if err == http.ErrContentLength {
 					wrets = append(wrets, "ECL")
